@@ -1,7 +1,9 @@
 (* C32 — Index encodings are invertible and order preserving.
    Only theorem statements, each closed by [exact <lemma>], and Print Assumptions. *)
 From Coq Require Import NArith List.
-From LV Require Import lib.Bytes model.Codec proofs.CodecProofs.
+From Coq Require Import Permutation Sorted.
+From LV Require Import lib.Bytes model.Codec model.IdOrder proofs.CodecProofs proofs.IdOrderProofs.
+Import ListNotations.
 Local Open Scope N_scope.
 
 (* widths: k = 2, 4, 8 are the instances the code uses; the theorems hold for every k. *)
@@ -32,6 +34,31 @@ Theorem C32_builder_ids : forall b ops,
   map (fun id => (id_epoch id, id_lamport id)) (brun b ops) = bspec (b_epoch b) (b_lamport b) ops.
 Proof. exact brun_carries. Qed.
 
+(* --- byte-wise ID order (hash.OrderedEvents.Less = bytes.Compare < 0, ByEpochAndLamport = sort by it) ---
+   Less is a strict total order on all byte strings; on ids built with any uint32 epoch and lamport it
+   is the (epoch, lamport, tail) order; hence sorting ids by Less - with ANY correct sort - is sorting
+   by epoch, then Lamport time, then tail *)
+Theorem C32_less_strict_total_order : forall a b c,
+  less_ids a a = false /\ (less_ids a b = true -> less_ids b c = true -> less_ids a c = true) /\
+  (a <> b -> less_ids a b = true \/ less_ids b a = true).
+Proof. intros a b c; split; [exact (less_irrefl a)|split; [exact (less_trans a b c)|exact (less_total a b)]]. Qed.
+Theorem C32_less_is_epoch_lamport_order : forall a b, in_range a -> in_range b ->
+  less_ids (mk_id a) (mk_id b) = tless a b.
+Proof. exact less_mk_id. Qed.
+Theorem C32_any_sort_by_less : forall l l', Permutation l' l -> StronglySorted ile l' -> l' = id_sort l.
+Proof. exact id_sort_unique. Qed.
+Theorem C32_sorted_ids_sort_by_epoch_lamport : forall ts, Forall in_range ts ->
+  id_sort (map mk_id ts) = map mk_id (tsort ts) /\ triples_sorted (tsort ts) = true /\
+  Permutation (id_sort (map mk_id ts)) (map mk_id ts).
+Proof. intros ts H; split; [exact (id_sort_is_triple_sort ts H)|split; [exact (tsort_sorted ts)|exact (id_sort_perm _)]]. Qed.
+(* the witness on which a comparison of the 8-byte prefix by the sign of a 64-bit difference fails *)
+Example C32_ex_wide_epochs :
+  less_ids (event_id 1 5 []) (event_id 2147483650 0 []) = true /\
+  less_ids (event_id 2147483650 0 []) (event_id 1 5 []) = false /\
+  map id_epoch (id_sort [event_id 2147483650 0 [7]; event_id 1 5 [9]; event_id 4294967295 1 []; event_id 0 4294967295 []])
+    = [0; 1; 2147483650; 4294967295].
+Proof. repeat split; vm_compute; reflexivity. Qed.
+
 (* non-vacuity: the bounds are the ranges of uint16/32/64 *)
 Example C32_ranges : pow256 2 = 65536 /\ pow256 4 = 4294967296 /\ pow256 8 = 18446744073709551616.
 Proof. repeat split; vm_compute; reflexivity. Qed.
@@ -45,3 +72,7 @@ Print Assumptions C32_id_epoch.
 Print Assumptions C32_id_lamport.
 Print Assumptions C32_id_order.
 Print Assumptions C32_builder_ids.
+Print Assumptions C32_less_strict_total_order.
+Print Assumptions C32_less_is_epoch_lamport_order.
+Print Assumptions C32_any_sort_by_less.
+Print Assumptions C32_sorted_ids_sort_by_epoch_lamport.
